@@ -20,6 +20,7 @@ from eos.source.exception import UnknownSourceError
 from eos.eve_obj.type import AbilityData
 import eos.item.booster as booster_mod
 import math
+from eos.const.eve import EffectCategoryId, EffectId
 from eos.source import Source
 
 from eosenv import MemCacheHandler, parse_q
@@ -190,6 +191,11 @@ class Impl:
             effs = {}
             for eid, e in p['effects'].items():
                 mods = tuple(e.pop('mods'))
+                if eid == int(EffectId.online) and e.get('category_id') == int(EffectCategoryId.online) \
+                        and Impl.raw_online():
+                    # the data as CCP ships it: the 'online' effect comes with the 'active' category and eos's own
+                    # customisation (eve_obj/custom/online_effect_category) makes it the online category it is
+                    e = dict(e, category_id=int(EffectCategoryId.active))
                 effs[eid] = ch.mkeffect(eid, modifiers=mods, **e)
             for tid, ty in p['types'].items():
                 ch.mktype(tid, group_id=ty['group_id'], category_id=ty['category_id'], attrs=ty['attrs'],
@@ -400,6 +406,14 @@ class Impl:
             1 if obj._is_loaded else 0, ','.join(map(str, sorted(obj._running_effect_ids))),
             self.iid(getattr(obj, 'target', None)), self.iid(getattr(obj, 'charge', None)),
             autos, stale, ','.join(map(str, sorted(cached))))
+
+    _raw_online_toggle = 0
+
+    @staticmethod
+    def raw_online():
+        """every other universe is given the 'online' effect the way the raw data has it"""
+        Impl._raw_online_toggle += 1
+        return Impl._raw_online_toggle % 2 == 0
 
     def fit_dump(self, f):
         fit = self.fits.get(f)
